@@ -24,15 +24,23 @@ class Emptier:
                  dry_run,  # type: bool
                  verbose,  # type: int
                  ):  # type: (...) -> None
+        not_removed = set()
         for path in self.files_to_delete(trash_dirs, environ, parsed_days):
             if dry_run:
                 self.console.print_dry_run(path)
             else:
+                if (path.endswith('.trashinfo') and
+                        path_of_backup_copy(path) in not_removed):
+                    # its file is still there: keep what describes it
+                    continue
                 if verbose:
                     self.console.print_removing(path)
                 try:
                     self.file_remover.remove_file_if_exists(path)
-                except OSError:
+                except (OSError, RuntimeError):
+                    # RuntimeError: shutil.rmtree gives up with a
+                    # RecursionError on a very deeply nested directory
+                    not_removed.add(path)
                     self.console.print_cannot_remove_error(path)
 
     def files_to_delete(self,
